@@ -36,7 +36,7 @@ UNIVERSE = [
     # names and a comment made of hexadecimal digits only (they look like key ids to anything that guesses)
     ('ecdsa-p521-0', ('Abe Dee (cafe) <abe@example.org>', 'Ada'), ()),
 ]
-FORMS = ['object', 'binary', 'armored', 'file', 'list', 'tuple']
+FORMS = ['object', 'binary', 'armored', 'file', 'list', 'tuple', 'dup-list', 'dup-args']
 
 
 def split_uid(u):
@@ -137,6 +137,16 @@ def apply(state, op):
             arg = path
         elif form == 'list':
             arg = [blob]
+        elif form in ('dup-list', 'dup-args'):
+            # the same key half twice in ONE load call (binary + armored): two independent instances, as with two calls
+            items = [blob, str(keypool.pgpy_key(blob))]
+            got = state.kr.load(items) if form == 'dup-list' else state.kr.load(items[0], items[1])
+            state.loaded.append([i, half])
+            state.loaded.append([i, half])
+            want = {U.info[i]['fp']} | set(U.info[i]['subs'])
+            if {str(x) for x in got} != want:
+                raise AssertionError('load-return-value: %r != %r' % (sorted(str(x) for x in got), sorted(want)))
+            return
         else:
             arg = (bytearray(blob),)
         got = state.kr.load(arg)
@@ -390,7 +400,7 @@ def w_exhaustive(arg):
     part, nparts, L = arg
     import itertools
     rec = harness.Rec()
-    alpha = [['load', 0, 'pub', 'object'], ['load', 0, 'sec', 'binary'], ['load', 5, 'pub', 'binary'], ['load', 2, 'pub', 'object'],
+    alpha = [['load', 0, 'pub', 'object'], ['load', 0, 'sec', 'binary'], ['load', 2, 'pub', 'dup-list'], ['load', 5, 'pub', 'binary'], ['load', 2, 'pub', 'object'],
              ['unload', 'Alice'], ['unload', 'alice@example.org'], ['unload', 'work'], ['unload', universe().info[0]['fp'][-16:]],
              ['unload_sub', universe().info[0]['subs'][0][-16:]], ['load', 7, 'pub', 'armored'], ['unload', 'Ada']]
     n = 0
@@ -405,7 +415,7 @@ def w_exhaustive(arg):
             if res and res[0][1] == 'unload-keyerror':
                 continue
             record_history(rec, ops, res)
-    rec.exhaustive['all operation sequences of length <= %d over an 11-operation alphabet' % L] = True
+    rec.exhaustive['all operation sequences of length <= %d over a 12-operation alphabet' % L] = True
     return rec
 
 
